@@ -78,7 +78,16 @@ def ring_stereo_family():
             'C[C@H](O)CC.C[C@@H](O)CC', 'F/C=C/F', 'F/C=C\\F', 'C[C@]12CC[C@H](CC1)C2']
     # tri- and tetrasubstituted double bonds (every substituent slot of the sign table is used by some spelling)
     out += ['F/C(Cl)=C(/Br)I', 'F/C(Cl)=C(\\Br)I', 'C/C(F)=C(/C)CC', 'CC/C(C)=C(/C)CO', 'C/C=C(/C)CC', 'C/C=C(\\C)CC', 'OC/C(C)=C(/CC)C(C)C']
+    # substituted allenes (every substituent slot of the allene sign table) and cis/trans cumulenes with an even number of chain atoms
+    out += ['CC(Cl)=[C@]=CC', 'CC(Cl)=[C@@]=CC', 'NC(Br)=[C@]=C(O)C', 'CC(O)=[C@]=C(N)F', 'FC(Cl)=[C@]=C(Br)I', 'FC(Cl)=[C@@]=C(Br)I', 'C/C=C=C=C/C', 'C/C=C=C=C\\C', 'C/C(F)=C=C=C(/C)Cl',
+            'F/C=C=C=C=C=C/F']
     return out
+
+
+def isoh_family():
+    """stereocentres and double bonds carrying an isotopic hydrogen ATOM (both toolkits keep it as an atom), the hydrogen at every position"""
+    return ['[2H][C@](C)(O)CC', 'C[C@](O)([2H])CC', 'C[C@]([2H])(O)CC', 'C[C@](O)(CC)[2H]', 'N[C@@]([2H])(C)C(=O)O', '[3H][C@](F)(Cl)Br', 'F[C@]([3H])(Cl)Br', 'C[C@@]([2H])(O)c1ccccc1',
+            'C[C@]1([2H])CCCO1', '[2H][C@](F)(Cl)C', '[2H]/C(C)=C/C', 'C/C([2H])=C/C', '[2H]/C(C)=C(/[2H])CC']
 
 
 def interdependent_family():
